@@ -11,10 +11,11 @@ KINDS = ["nested_arr", "fixed", "hybrid", "dynamic",
          "ndarray_cs_fb", "ndarray_cs_hb", "ndarray_cs_db", "ndarray_fs_fb", "ndarray_fs_hb", "ndarray_fs_db",
          "ndarray_hs_fb", "ndarray_hs_hb", "ndarray_hs_db", "ndarray_ds_fb", "ndarray_ds_hb", "ndarray_ds_db",
          "ndarray_ls_fb", "ndarray_ls_hb", "ndarray_ls_db"]
-OPS = list(range(1, 21))
+OPS = list(range(1, 28))
 OPNAME = {1: "transpose", 2: "transpose_ct102", 3: "reshape_ct", 4: "reshape_rt", 5: "sum0", 6: "sum1", 7: "expand_dims",
           8: "flip", 9: "cumsum", 10: "add", 11: "repeat", 12: "tile", 13: "pad", 14: "concatenate", 15: "relu",
-          16: "multiply_scalar", 17: "roll", 18: "sum_keepdims", 19: "transpose_of_sum", 20: "flip_of_repeat"}
+          16: "multiply_scalar", 17: "roll", 18: "sum_keepdims", 19: "transpose_of_sum", 20: "flip_of_repeat",
+          21: "atleast_nd_ct4", 22: "atleast_nd_ct5", 23: "broadcast_to_4d", 24: "moveaxis", 25: "take", 26: "squeeze_of_sum_keepdims", 27: "flatten"}
 CLAIM = dict(
     text=("Kernel-checked abstract-interpretation soundness: the knowledge (fixed shape / dim / size, bounded dim / size, clip bounds) "
           "of every array kind (5 shape kinds x 3 buffer kinds) holds for EVERY run-time shape the kind admits; the rules by which 14 "
@@ -30,7 +31,7 @@ CLAIM = dict(
     ref="5.11", technique="Coq proof (abstract interpretation soundness, composition by induction) + two-stage differential correspondence",
     extra="Partial: only the 14 modelled view rules are proved sound for all shapes; other view types (6 here) are checked by the direct "
           "run-time relation on the explored shapes only. Template machinery selecting the traits is observed, not proved.")
-RULE = ("every (operand kind of 19, view type of 20, run-time shape variant of 4: (2,3,4),(4,3,2),(1,2,3),(3,2,4)) for which the kind admits "
+RULE = ("every (operand kind of 19, view type of 27, run-time shape variant of 4: (2,3,4),(4,3,2),(1,2,3),(3,2,4)) for which the kind admits "
         "the shape (others are skipped by the driver); non-trivial = the kind has some run-time freedom or the view changes shape; "
         "distinct = distinct case lines")
 THEOREM_STATUS = {"proved": ["C11_checker_is_gamma", "C11_array_kinds_sound", "C11_view_rules_sound", "C11_compositions_sound",
@@ -41,7 +42,7 @@ ASSUMPTIONS = ["un-modelled view types are covered by the run-time soundness rel
 
 
 K2 = ["same", "fixed", "ndarray_fs_db", "ndarray_hs_hb", "ndarray_ds_db", "ndarray_ls_fb"]
-BINOP = {0: "add_ab", 1: "add_ba", 2: "multiply_ab", 3: "add_c31_d13", 4: "add_d13_c31", 5: "multiply_of_two_sided_adds"}
+BINOP = {0: "add_ab", 1: "add_ba", 2: "multiply_ab", 3: "add_c31_d13", 4: "add_d13_c31", 5: "multiply_of_two_sided_adds", 6: "outer_add_c_d", 7: "outer_add_d_c", 8: "outer_add_c_dshrunk", 9: "outer_add_dshrunk_c"}
 WHERE = {0: "where_c3_scalar_y53", 1: "where_c3_y53_scalar", 2: "where_c53_x3_scalar", 3: "where_c3_x3_y53"}
 
 
